@@ -624,6 +624,9 @@ class HistRunner {
           if (have_layout && last_layout.has(num) && !recently_unlinked.count(num))
             VF_FAIL("C13", "table number %llu re-created while the earlier file is live", (unsigned long long)num);
           summary_cache.erase(num);
+          // an orphan (e.g. the abandoned output of a compaction that ldb_close interrupted) may be unlinked and its
+          // number, never recorded in the MANIFEST, legitimately handed out again: the later file is a new one
+          recently_unlinked.erase(num);
           if (!created_numbers_tables.insert(num).second) rep->count("table_number_recreated_after_death");
         }
       }
